@@ -65,7 +65,7 @@ def main(run):
                   "kind | invalid child value or element | empty array | two-element array", "extra": "one key the format does not define, at every table", "children": "abstracted to accepted/rejected (compositional)"}
     run.assumptions = ["toml crate delivers the document as a tree of tables/arrays/scalars (text layer outside)",
                        "serde data-model runtime as summarised in mirsym/summ_serde.py", "identifier/version grammars are C09's subject (abstracted here)"]
-    run.outside = ["toml syntax errors", "free-form metadata contents", "LayerContentMetadata<M> (checked in C01/C02)", "Process/Slice/WorkingDirectory (untagged; planned)"]
+    run.outside = ["toml syntax errors", "free-form metadata contents", "LayerContentMetadata<M> (checked in C01/C02)", "the untagged derive of WorkingDirectory (abstracted: any string is a directory)"]
     P = run.program(CRATES)
     summ_core.install(P)
     summ_coll.install(P)
@@ -280,8 +280,8 @@ def main(run):
             run.candidate(f"{struct}:{sig}", f"{struct} {'accepts' if accepted else 'rejects'}:\n{req['toml']}", req, True)
 
 
-GOOD = {"BuildpackApi": '"0.10"', "BuildpackId": '"a/b"', "BuildpackVersion": '"1.2.3"', "SbomFormat": '"application/spdx+json"', "PlatformOs": '"linux"'}
-BAD = {"BuildpackApi": '"x"', "BuildpackId": '"app"', "BuildpackVersion": '"1.2"', "SbomFormat": '"nope"', "PlatformOs": '"beos"'}
+GOOD = {"ProcessType": '"web"', "WorkingDirectory": '"sub/dir"', "BuildpackApi": '"0.10"', "BuildpackId": '"a/b"', "BuildpackVersion": '"1.2.3"', "SbomFormat": '"application/spdx+json"', "PlatformOs": '"linux"'}
+BAD = {"ProcessType": '"w b"', "WorkingDirectory": None, "BuildpackApi": '"x"', "BuildpackId": '"app"', "BuildpackVersion": '"1.2"', "SbomFormat": '"nope"', "PlatformOs": '"beos"'}
 GOOD_TABLE = {"Buildpack": 'id = "a/b"\nversion = "1.2.3"', "License": 'type = "MIT"', "Order": '[[{p}.group]]\nid = "a/b"\nversion = "1.2.3"', "Group": 'id = "a/b"\nversion = "1.2.3"',
               "BuildpackTarget": 'os = "linux"', "Distro": 'name = "u"\nversion = "1"', "Stack": 'id = "*"', "Entry": 'name = "n"', "FreeForm": 'k = "v"',
               "PackageDescriptorBuildpackReference": 'uri = "."', "PackageDescriptorDependency": 'uri = "docker://x/y"', "Platform": 'os = "linux"',
